@@ -7,6 +7,7 @@ import (
 	"github.com/fatih/color"
 	"grog/internal/config"
 	"grog/internal/console"
+	"grog/internal/verifhook"
 	"os"
 	"path/filepath"
 	"strconv"
@@ -37,14 +38,18 @@ func (wl *WorkspaceLocker) Lock(ctx context.Context) error {
 
 	for {
 		logger.Debugf("Attempting to acquire workspace lock at %s", wl.lockFilePath)
+		verifhook.Point("lock.try")
 		file, err := os.OpenFile(wl.lockFilePath, os.O_RDWR|os.O_CREATE|os.O_EXCL, 0644)
 		if err == nil || errors.Is(err, os.ErrNotExist) {
+			verifhook.Point("lock.created")
 			_, writeErr := file.Write(pidStr)
 			file.Close()
 			if writeErr != nil {
 				os.Remove(wl.lockFilePath)
 				return writeErr
 			}
+			verifhook.Point("lock.pidwritten")
+			verifhook.Event("lock.acquired")
 			return nil
 		}
 		if !errors.Is(err, os.ErrExist) {
@@ -52,21 +57,27 @@ func (wl *WorkspaceLocker) Lock(ctx context.Context) error {
 		}
 
 		// Read the lock file which contains the PID of the other process
+		verifhook.Point("lock.read")
 		data, readError := os.ReadFile(wl.lockFilePath)
 		if readError != nil {
+			verifhook.Point("lock.staleremove", "reason", "unreadable")
 			_ = os.Remove(wl.lockFilePath)
 			continue
 		}
 		otherPid, conversionError := strconv.Atoi(strings.TrimSpace(string(data)))
 		if conversionError != nil {
+			verifhook.Point("lock.staleremove", "reason", "garbage")
 			_ = os.Remove(wl.lockFilePath)
 			continue
 		}
+		verifhook.Point("lock.probe")
 		if !processRunning(otherPid) {
+			verifhook.Point("lock.staleremove", "reason", "deadpid")
 			_ = os.Remove(wl.lockFilePath)
 			continue
 		}
 
+		verifhook.Point("lock.wait")
 		if waitPrinted == false {
 			green := color.New(color.FgGreen).SprintFunc()
 			fmt.Printf("%s: Another grog build (PID %d) is running. Waiting..", green("INFO"), otherPid)
@@ -86,6 +97,7 @@ func (wl *WorkspaceLocker) Lock(ctx context.Context) error {
 
 // Unlock releases the workspace lock.
 func (wl *WorkspaceLocker) Unlock() error {
+	verifhook.Point("lock.release")
 	return os.Remove(wl.lockFilePath)
 }
 
